@@ -1704,8 +1704,22 @@ def model_from_dump(dump, rng, opts=None):
         rng.shuffle(entries)
         chunks.append(chunk("META", {"entries": entries}))
     if sstr_list:
+        # the 16-byte hash field "isn't used by Roblox Studio when loading the file" (E19): besides the real MD5 a
+        # writer may leave zeros, one placeholder for every entry, or anything else there, and entries with DIFFERENT
+        # contents may then carry EQUAL hash fields - a reader must go by the index alone
+        hm = force.get("sstr_hash") or rng.choice(["md5", "md5", "md5", "zeros", "placeholder", "placeholder", "random", "pairs"])
+        def _h(k, h):
+            if hm == "zeros":
+                return "00" * 16
+            if hm == "placeholder":
+                return "a5" * 16
+            if hm == "random":
+                return "%032x" % rng.getrandbits(128)
+            if hm == "pairs":
+                return "%032x" % (0x1234 + k // 2)
+            return hashlib.md5(bytes.fromhex(h)).hexdigest()
         chunks.append(chunk("SSTR", {"version": 0, "strings": [
-            {"hash": hashlib.md5(bytes.fromhex(h)).hexdigest(), "data": h} for h in sstr_list]}))
+            {"hash": _h(k, h), "data": h} for k, h in enumerate(sstr_list)]}))
     chunks.extend(seq)
     chunks.append(prnt)
     want_extra = force["extra_chunks"] if "extra_chunks" in force else rng.random() < 0.3
